@@ -138,15 +138,22 @@ PROPERTIES["C18"] = dict(
                "terminates (decreases on both loops), puts every event value into the batches at most as often as it occurs in the input, "
                "drops only events whose singleton document already reaches 65536 bytes, and every batch it hands on is non-empty and "
                "< 65536 bytes (UTF-8) of the document to_xml builds; send_data_to_wire_server uploads that same document 1..5 times and "
-               "re-sends only after a failed attempt; process_events_and_clean calls clean_files for every input file on the Ok and the Err "
+               "re-sends only after a failed attempt; WireServerClient::send_telemetry_data (real body) sends nothing for an empty document, "
+               "otherwise hands at most ONE request to the network whose body is exactly the document's bytes and returns Ok if and only if "
+               "the host answered 2xx (so an accepted batch is never reported as failed and POSTed again; what the host accepted is exactly "
+               "the attempts recorded as accepted: Trace::host_agrees, part of the trace invariant); process_events_and_clean calls clean_files for every input file on the Ok and the Err "
                "read path; xml_escape is proved to be the one-pass entity encoding (no < > \" ' in the result, decodes back to the original "
                "text) and to_xml_event to emit exactly the fixed markup with encoded/decimal values; the only `]]>` in an event is its own "
                "closing one.",
-    level_note="Trusted: Verus/Z3/rustc; send_telemetry_data's trace-append contract; from_event_log is a function of its arguments; derived "
+    level_note="Trusted: Verus/Z3/rustc; the redirect of hyper_client::send_request records (request body bytes, status of the host's response "
+               "or none) in the trace and is the only write primitive of the upload; build_request's request carries the given body (proved in "
+               "unit sign); String::as_bytes is the UTF-8 encoding, StatusCode::is_success is 200..=299, Response::status reads the status; "
+               "Uri parsing / Method::POST behind E9; from_event_log is a function of its arguments; derived "
                "Clone of VmMetaData; str::replace(char,&str) is a per-char flat map; String::len is UTF-8 bytes; format! with one {} "
                "concatenates literal pieces and Display(arg), u64 shown as decimal digits (23 generated stubs, contract read from the tree's "
-               "literals); [0;5] yields 5 items; Display does not panic. Not covered: the host's XML parser; HTTP layer below "
-               "send_telemetry_data; file-system faults (a refused removal makes the next scan re-read the file); the usize overflow of the "
+               "literals); [0;5] yields 5 items; Display does not panic. Not covered: the host's XML parser; the HTTP layer below "
+               "hyper_client::send_request (hyper plumbing: a transport error after the host processed the request is a failure here and "
+               "the batch is POSTed again - inherent to retrying); file-system faults (a refused removal makes the next scan re-read the file); the usize overflow of the "
                "log-only event counter (E9, C13 scope); process_events / loop_reader (callers) are not under contract.",
     design_ref="DESIGN.md section 3 C18",
     assumptions=[],
